@@ -130,7 +130,7 @@ func (d *jDec) str() ([]byte, bool) {
 
 func (d *jDec) value(depth int) bool {
 	d.ws()
-	if d.i >= len(d.b) || depth > 6 {
+	if d.i >= len(d.b) || depth > 200 {
 		return false
 	}
 	c := d.b[d.i]
